@@ -17,26 +17,30 @@ def tasks(tier):
     ts.append(Task('verifHarness_C20_time', [0], ARITH))
     ts.append(Task('verifHarness_C20_time', [1], ARITH))
     for k, n in ([(1, 1), (2, 0)] if tier == "quick" else [(1, 0), (1, 3), (2, 1), (3, 1), (3, 3)]):
-        ts.append(Task('verifHarness_C20_write', [k, n], ARITH))
+        ts.append(Task('verifHarness_C20_write', [k, n, 0], ARITH))
     for k, n in ([(2, 1)] if tier == 'quick' else [(2, 1), (3, 1), (3, 3)]):
         maxlen = k * (8 + 25 + n)
         for cut in range(0, maxlen + 1):
             ts.append(Task('verifHarness_C20_cut', [k, n, cut], {'branch_timeout_ms': 300}))
+    for cut in ((-1, 3, 9) if tier == 'quick' else (-1, 1, 3, 7, 8, 9, 12, 20)):
+        ts.append(Task('verifHarness_C20_readsplit', [2, 1, cut], {'branch_timeout_ms': 300}))
     for n in (0, 2):
         ts.append(Task('verifHarness_C20_unencodable', [n]))
+        ts.append(Task('verifHarness_C20_fail_then_ok', [n]))
         for f in (1, 2, 3):
             ts.append(Task('verifHarness_C20_writefail', [n, f]))
     return ts
 
 
 def required_reach(tier):
-    return ['C20/W', 'C20/T', 'C20/C', 'C20/E', 'C20/F']
+    return ['C20/W', 'C20/T', 'C20/C', 'C20/E', 'C20/E2', 'C20/F', 'C20/S']
 
 
 def bounds(tier):
     return {'entries': '<= 2 (quick) / <= 3 (thorough), each v1 / v2 / signed v2 (forked), raw payload <= 1 (quick) / 3 (thorough) bytes, all contents symbolic',
             'times': 'writer: sec in (-2^42, 2^42), nsec in [0, 1e9); reader lemma: every timestamp field value in (-2^62, 2^62)',
-            'cuts': 'every byte offset of the log', 'write_failures': 'underlying Write failing at call 1, 2 or 3'}
+            'cuts': 'every byte offset of the log', 'read_segmentation': '2-entry log delivered in 1-byte reads or with a first transport read of 3 / 9 bytes (quick), eight sizes (thorough)',
+            'failed_then_valid': 'an unencodable entry followed by a valid one: the file holds only the valid entry', 'write_failures': 'underlying Write failing at call 1, 2 or 3'}
 
 
 OUTSIDE = ['logs longer than the bound (entries are independent: reader and writer keep no cross-entry state other than the bufio cursor; argued, not mechanised)',
